@@ -4,8 +4,11 @@ import json, os, subprocess
 ROOT = os.path.dirname(os.path.dirname(os.path.abspath(__file__)))
 import glob
 cfg = {"checks": {}}
+enabled = [l.strip() for l in open(os.path.join(ROOT, "enabled.txt")) if l.strip() and not l.startswith("#")]
 for f in sorted(glob.glob(os.path.join(ROOT, "props", "c*", "check.json"))):
-    cfg["checks"][os.path.basename(os.path.dirname(f)).upper()] = json.load(open(f))
+    pid = os.path.basename(os.path.dirname(f)).upper()
+    if pid in enabled:  # only checks the lead has reviewed and accepted are registered
+        cfg["checks"][pid] = json.load(open(f))
 na = json.load(open(os.path.join(ROOT, "not_applicable.json")))
 props = [json.loads(l)["id"] for l in open(os.path.join(ROOT, "properties.jsonl")) if l.strip()]
 hooks_commits = []
